@@ -221,7 +221,7 @@ func checkRangeResp(obj []byte, resp *gw.Resp, want []rangeOutcome, isHead bool)
 // C13: exhaustive product object size × Range string, end-to-end GET and HEAD,
 // plus direct ParseGetObjectRange on the same strings with larger sizes.
 func C13(r *ck.Run) {
-	r.Rule("every Range string of the grammar menu (closed/open/suffix over boundary numbers, multi-range, other units, lax numerals, garbage) × every object size; a case is distinct by (size, header, method); non-trivial = header present")
+	r.Rule("every Range string of the grammar menu (closed/open/suffix over boundary numbers, multi-range, other units, lax numerals, garbage) × every object size (and a directory object); a case is distinct by (size, key, header, method); non-trivial = header present")
 	r.Assume("suffix ranges may be supported (206 last n bytes) or unsupported (200 whole object); numbers that do not fit 63 bits may count as beyond-the-end (416) or malformed (200); blanks and '+' in numerals may be rejected (200) or ignored")
 	sizes := []int64{0, 1, 2, 5, 10}
 	if r.Thorough() {
@@ -234,9 +234,13 @@ func C13(r *ck.Run) {
 	for ci, cfg := range cfgs {
 		f := NewFx("c13", cfg)
 		Must(f.CreateBucket(gw.Root, "rbk"), "create bucket")
-		for _, size := range sizes {
+		for si, size := range append([]int64{0}, sizes...) {
 			obj := Pattern(int(size), 3)
 			key := fmt.Sprintf("o%d", size)
+			if si == 0 {
+				// a directory object: an object of length 0 that is not a file
+				key = "dirobj/"
+			}
 			Must(f.Put(gw.Root, "rbk", key, obj), "put")
 			for _, c := range rangeCases(size) {
 				want := refRange(size, c.Hdr)
@@ -256,7 +260,7 @@ func C13(r *ck.Run) {
 					r.Add("evaluations", 1)
 					r.Add("transitions", 1)
 					if c.Hdr != "" {
-						r.Distinct(fmt.Sprintf("%d|%s|%s|%d", size, c.Hdr, method, ci))
+						r.Distinct(fmt.Sprintf("%d|%s|%s|%s|%d", size, key, c.Hdr, method, ci))
 					}
 					r.Outcome(fmt.Sprintf("%s:%d", c.Class, resp.Status))
 					if a := checkRangeResp(obj, resp, want, method == "HEAD"); a != "" {
@@ -264,7 +268,11 @@ func C13(r *ck.Run) {
 						for _, w := range want {
 							ws = append(ws, outcomeStr(w))
 						}
-						r.Violation(ck.JoinSig(method, c.Class, a), map[string]any{
+						kind := method
+						if si == 0 {
+							kind += " directory-object"
+						}
+						r.Violation(ck.JoinSig(kind, c.Class, a), map[string]any{
 							"size": size, "range": c.Hdr, "method": method, "config": cfg, "status": resp.Status,
 							"content_range": resp.Header.Get("Content-Range"), "content_length": resp.Header.Get("Content-Length"),
 							"body_len": len(resp.Body), "admitted": ws,
